@@ -130,6 +130,16 @@ Section C15.
     trace_ok E_eqb sem accts nodes a tr k = 0 <-> trace_P E_eqb sem accts nodes a tr.
   Proof. exact (trace_ok_spec E_eqb sem e_default E_eqb_refl). Qed.
 
+  (** what the boolean predicates on one proposal mean *)
+  Theorem C15_tally_ok_P : forall p : @proposal E, tally_ok p = true -> tally_P p.
+  Proof. exact tally_ok_P. Qed.
+
+  Theorem C15_final_eqb_P : forall p q : @proposal E,
+    final_eqb p q = true ->
+    p_status p = p_status q /\ p_reason p = p_reason q /\ p_approve p = p_approve q /\ p_reject p = p_reject q /\
+    p_super p = p_super q /\ (forall v b, In (v, b) (p_ballots p) <-> In (v, b) (p_ballots q)).
+  Proof. exact final_eqb_P. Qed.
+
   Theorem C15_trace_ok_skip_nil : forall accts nodes tr (a : @state E) k,
     trace_ok_skip E_eqb sem [] accts nodes a tr k = trace_ok E_eqb sem accts nodes a tr k.
   Proof. exact (trace_ok_skip_nil E_eqb sem). Qed.
@@ -156,6 +166,8 @@ Print Assumptions C15_final.
 Print Assumptions C15_manage_once.
 Print Assumptions C15_core_clauses_hold.
 Print Assumptions C15_trace_ok_spec.
+Print Assumptions C15_tally_ok_P.
+Print Assumptions C15_final_eqb_P.
 Print Assumptions C15_trace_ok_skip_nil.
 Print Assumptions C15_step_ok_zero.
 
